@@ -7,6 +7,7 @@ import (
 	"fmt"
 	"io"
 	stdslog "log/slog"
+	"reflect"
 	"runtime"
 	"strings"
 	"sync"
@@ -59,7 +60,17 @@ type c09probe struct {
 	msg        string
 	kvs        []gen.KV
 	spy        bool
+	pc         uintptr // the frame the record is attributed to: one of the harness, or one inside the library's own package
 }
+
+// c09libPC is a program counter inside a function of the library: its qualified name holds the names of a code hosting
+// provider AND of an organisation the application registered as one ("github.com/hedzr/logg/slog...").
+var c09libPC = reflect.ValueOf(slog.RegisterLevel).Pointer() + 1
+
+// c09funcW is a destination made of a function.
+type c09funcW func(p []byte)
+
+func (f c09funcW) Write(p []byte) (int, error) { f(p); return len(p), nil }
 
 // c09writer hands every payload to the monitor; while reenter is set it first logs a record of its own through another
 // logger (what a destination that reports metrics through the same library does). The bytes of the record it was given
@@ -103,6 +114,9 @@ var c09verbCtx = bg
 
 func c09hist(c *Ctx) {
 	registerCustomLevels()
+	// the application has registered its organisation as a "code hosting provider" (a documented use of the table):
+	// names that hold both "github.com" and "hedzr" are shortened by both rules, in whatever order
+	slog.AddCodeHostingProviders("hedzr", "HZ")
 	log := mon.NewLog()
 	nestLog := mon.NewLog()
 	nestLog.Discard = true
@@ -125,7 +139,7 @@ func c09hist(c *Ctx) {
 				as = append(as, slog.NewAttr("zzspy", ptrSpy{&lastCtx}))
 			}
 		}
-		evs := capture(log, func() { lg.WriteThru(bg, p.lvl, p.ts, thePC, p.msg, as) })
+		evs := capture(log, func() { lg.WriteThru(bg, p.lvl, p.ts, p.pc, p.msg, as) })
 		var b []byte
 		for _, e := range evs {
 			b = append(b, e.Data...)
@@ -133,7 +147,13 @@ func c09hist(c *Ctx) {
 		return b
 	}
 	genProbe := func(r *gen.R) c09probe {
-		p := c09probe{f: Format(r.Intn(3)), ts: r.Time(), spy: true, minW: 36, tagW: 3}
+		p := c09probe{f: Format(r.Intn(3)), ts: r.Time(), spy: true, minW: 36, tagW: 3, pc: thePC}
+		if r.P(25) {
+			p.pc = c09libPC
+		}
+		if r.P(3) {
+			p.ts = time.Time{} // the zero instant is an instant like any other: the call carries it
+		}
 		if r.P(35) { // the presentation settings are inputs of the call too
 			p.minW, p.tagW = r.Range(16, 170), r.Range(1, 5)
 		}
@@ -170,6 +190,11 @@ func c09hist(c *Ctx) {
 			slog.AddFlags(slog.LattrsR)
 		} else {
 			slog.RemoveFlags(slog.LattrsR)
+		}
+		if r.Bool() {
+			slog.AddFlags(slog.Lcallerpackagename)
+		} else {
+			slog.RemoveFlags(slog.Lcallerpackagename)
 		}
 		flagsNow := slog.GetFlags()
 		is.SetDebugMode(false) // a history may leave the process-wide debug mode on (SetLevel(Debug) on some logger does that)
@@ -314,6 +339,28 @@ func c09hist(c *Ctx) {
 			}
 			slog.SetFlags(flagsNow)
 			return n
+		}
+		// the probe issued from INSIDE the warning destination of another logger whose own destination has just failed
+		// (a destination that forwards what it is handed through the library): the flags are what they are
+		if r.P(15) {
+			var inner []byte
+			fwd := c09funcW(func([]byte) { inner = emit(p) })
+			hl := newRoot("failing", Format(r.Intn(3)), shortW{r: gen.NewR(c.Seed, "C09f", fmt.Sprint(idx), 0)}, slog.AlwaysLevel)
+			hl.SetErrorWriter(fwd)
+			func() {
+				defer func() { _ = recover() }()
+				hl.Info("a record whose destination fails", "k", strings.Repeat("v", 200))
+			}()
+			slog.SetFlags(flagsNow)
+			if inner != nil {
+				c.R.Add("probes_issued_from_inside_a_warning_destination", 1)
+				if !bytes.Equal(inner, ref) {
+					c.R.Violation(idx, "bytes-differ", "C09/bytes-differ/inside-a-warning-destination/"+p.f.String(),
+						fmt.Sprintf("the same WriteThru call issued from inside the warning destination of a logger whose own destination had just failed produced different bytes:\n fresh context: %s\n inside:        %s", q(clip(string(ref), 400)), q(clip(string(inner), 400))),
+						map[string]any{"format": p.f.String(), "caller_flag": slog.IsAnyBitsSet(slog.Lcaller)})
+					return
+				}
+			}
 		}
 		for h := 0; h < nh; h++ {
 			n := history(h)
